@@ -1322,8 +1322,10 @@ def _stack():
         # `exchange = self.device.send_cmd_recv_rsp / send_rsp_recv_cmd; exchange(...)`: any of the translated drivers
         F("clf.exchange", CLF, "ContactlessFrontend.exchange", links={"exchange": drivers_cmd + drivers_rsp}),
         # ---- LLC
+        # mac.activate: nfc.dep.Initiator.activate / Target.activate, which call sense() / listen() (`_stack_copies`)
         F("llc.activate", LLC, "LogicalLinkController.activate",
-          sites={"mac.activate": [OS], "pdu.decode": ["nfc.llcp.pdu.DecodeError"]},
+          sites={"pdu.decode": ["nfc.llcp.pdu.DecodeError"]},
+          links={"mac.activate": ["dep.Initiator.activate.stack", "dep.Target.activate.stack"]},
           benign=["pdu.ParameterExchange", "pdu.encode"]),    # encodes the PAX PDU built just above
         F("llc.exchange", LLC, "LogicalLinkController.exchange",
           sites={"self.mac.exchange": [COMM, OS], "pdu.encode": ["nfc.llcp.pdu.EncodeError"],
@@ -1644,28 +1646,30 @@ def _clients():
 
 
 def _stack_copies():
-    """`connect(llcp=...)` without the layer boundaries between the frontend, the link controller and NFC-DEP activation:
-    copies of five functions in which the assumption sites `mac.activate`, `self.clf.sense`, `self.clf.listen` are
-    replaced by links to the translated functions (which reach the drivers' `sense_*` / `listen_*`).  What remains
-    assumed on this path: `clf.exchange` raises `CommunicationError` subclasses (proved of the drivers up to the
-    residual of `clf_exchange_escapes`), `mac.exchange` / `mac.deactivate` as in `llc.exchange` / `llc.terminate`."""
+    """`connect(llcp=...)` from the frontend down to the drivers: `LogicalLinkController.activate` calls
+    `nfc.dep.Initiator/Target.activate` in the copies below, which *call* `ContactlessFrontend.sense()` / `listen()`
+    (and through them every driver's `sense_*` / `listen_dep`) instead of assuming what they raise.  (`Props/ExcFlowDep.lean`
+    keeps the statements about `activate` under the layer boundary assumption.)  What remains assumed on this path:
+    `clf.exchange` raises `CommunicationError` subclasses (proved of the drivers up to the residual of
+    `clf_exchange_escapes`), `mac.exchange` / `mac.deactivate` as in `llc.exchange` / `llc.terminate`."""
     dep = {s["id"]: s for s in _dep()}
     stack = {s["id"]: s for s in _stack()}
 
-    def copy(src, new_id, links):
+    def copy(src, new_id, links, **kw):
         d = dict(src)
         d.update(id=new_id, copy=True, links=dict(src.get("links", {}), **links),
                  sites={k: v for k, v in src.get("sites", {}).items() if k not in links})
+        d.update(kw)
         return d
     return [
         # listen() for a peer-to-peer target (`atr_res` set, as `Target.activate` does): the `listen_dep` branch
         dict(stack["clf.listen"], id="clf.listen.p2p", when={"target.atr_res is not None": True}),
-        copy(dep["dep.Target.activate"], "dep.Target.activate.stack", {"self.clf.listen": "clf.listen.p2p"}),
+        # ATR_REQ.decode of an ATR_REQ that `ContactlessFrontend.listen` returned: `listen_dep` of clf/__init__.py has
+        # checked 16 <= len(atr_req) <= 64 (a shorter one makes listen() return None), the length test cannot fail
+        dict(dep["dep.ATR_REQ.decode"], id="dep.ATR_REQ.decode.checked", when={"len(data) < 16": False}),
+        copy(dep["dep.Target.activate"], "dep.Target.activate.stack",
+             {"self.clf.listen": "clf.listen.p2p", "ATR_REQ.decode": "dep.ATR_REQ.decode.checked"}),
         copy(dep["dep.Initiator.activate"], "dep.Initiator.activate.stack", {"self.clf.sense": "clf.sense"}),
-        copy(stack["llc.activate"], "llc.activate.stack",
-             {"mac.activate": ["dep.Initiator.activate.stack", "dep.Target.activate.stack"]}),
-        copy(stack["clf.llcp_connect"], "clf.llcp_connect.stack", {"llc.activate": "llc.activate.stack"}),
-        copy(stack["clf.connect"], "clf.connect.stack", {"self._llcp_connect": "clf.llcp_connect.stack"}),
     ]
 
 
